@@ -8,7 +8,7 @@
    below the quote is the tree of D with every range shifted by the inserted bytes". *)
 From Coq Require Import String.
 From MdIt Require Import Prims Tables Escape NormRef Indent Mdurl LinkParse Tree HtmlRe Block Inline.
-From MdIt Require Import TreeProofs Core Dispatch ShiftProofs PairsProofs.
+From MdIt Require Import Render TreeProofs Core Dispatch ShiftProofs PairsProofs.
 From Coq Require Import Lia ZifyBool ZifyN ZifyNat.
 Local Open Scope list_scope.
 Local Open Scope N_scope.
@@ -594,6 +594,32 @@ Proof.
 Qed.
 End IShift.
 
+(* ---- the serializer never looks at a recorded position ---- *)
+Lemma alt_text_sh P n : alt_text (sh_node P n) = alt_text n.
+Proof.
+  induction n as [k m a e cs IH] using node_ind'. cbn [sh_node alt_text].
+  assert (G : flat_map alt_text (map (sh_node P) cs) = flat_map alt_text cs).
+  { induction cs as [|c t IHt]; [reflexivity|]. inversion IH as [|? ? IHc IHt']; subst. cbn [map flat_map]. rewrite IHc, (IHt IHt'). reflexivity. }
+  rewrite G. destruct k; reflexivity.
+Qed.
+
+Theorem render_events_sh P n : render_events (sh_node P n) = render_events n.
+Proof.
+  induction n as [k m a e cs IH] using node_ind'.
+  pose proof (alt_text_sh P (Node k m a e cs)) as Halt. cbn [sh_node] in Halt.
+  cbn [sh_node render_events].
+  match goal with |- context [?g (map (sh_node P) cs)] =>
+    match type of g with list node -> res (list event) => set (go := g) end end.
+  assert (G : go (map (sh_node P) cs) = go cs).
+  { clear Halt. induction cs as [|c t IHt]; [reflexivity|]. inversion IH as [|? ? IHc IHt']; subst. cbn [map].
+    change (go (sh_node P c :: map (sh_node P) t)) with (do a0 <- render_events (sh_node P c); do b0 <- go (map (sh_node P) t); ret (a0 ++ b0)).
+    change (go (c :: t)) with (do a0 <- render_events c; do b0 <- go t; ret (a0 ++ b0)). rewrite IHc, (IHt IHt'). reflexivity. }
+  rewrite G. clearbody go. destruct k; cbn [sh_kind] in *; try reflexivity. rewrite Halt. reflexivity.
+Qed.
+
+Theorem render_sh P x n : render x (sh_node P n) = render x n.
+Proof. unfold render. rewrite render_events_sh. reflexivity. Qed.
+
 (* every parser assembled from the shipped plugins hands the inline pass a pair table of Em / Strong / Strikethrough
    constructors only, so the hypothesis of the theorems above holds for it *)
 Lemma shipped_pairs_plain P m ic mn tp ts : md_pairs_emph m = true ->
@@ -615,4 +641,15 @@ Theorem shipped_inline_pass_shift P cfg nest ic tp ts fuel refs n n' :
 Proof.
   intros icf H. split; [|apply fj_walk_shift].
   apply (inline_walk_shift P fuel icf refs (shipped_pairs_plain P _ _ _ _ _ (build_md_pairs_emph cfg nest)) n n' H).
+Qed.
+
+(* inline pass, clean-up and serializer together: the shifted block tree gives the same HTML *)
+Theorem shifted_tree_same_html P cfg nest ic tp ts fuel refs x n n' :
+  let icf := ICfg ic (md_maxnest (build_md cfg nest)) tp ts
+                  (map (fun p : N * (bool * list (option kind)) => (fst p, snd (snd p))) (md_pairs (build_md cfg nest))) in
+  inline_walk fuel icf refs n = inr n' ->
+  exists n2, inline_walk fuel icf refs (sh_node P n) = inr n2 /\ render x (fj_walk n2) = render x (fj_walk n').
+Proof.
+  intros icf H. destruct (shipped_inline_pass_shift P cfg nest ic tp ts fuel refs n n' H) as [H1 H2].
+  exists (sh_node P n'). split; [exact H1|]. rewrite H2. apply render_sh.
 Qed.
